@@ -61,7 +61,7 @@ cleanup = _cleanup
 
 
 class Session:
-    def __init__(self, sources: dict[str, str] | None = None, cache: bool = True, transpiler_env: dict | None = None, extra_defs: dict | None = None) -> None:
+    def __init__(self, sources: dict[str, str] | None = None, cache: bool = True, transpiler_env: dict | None = None, extra_defs: dict | None = None, template_override: bool = False, view_env: dict | None = None) -> None:
         from rogw.tranp.app.app import App
         from rogw.tranp.cache.cache import CacheSetting
         from rogw.tranp.data.meta.types import ModuleMetaFactory
@@ -83,8 +83,18 @@ class Session:
         self.sources: dict[str, str] = dict(sources or {})
         session = self
 
+        template_dirs = [os.path.join('data', 'cpp', 'template')]
+        if template_override:
+            # a project template directory in front of the stock one (config.yml: template_dirs): its list type template
+            # announces the header it needs through the documented emit_depends helper
+            tdir = os.path.join(ensure_workdir(), 'tpl', 'type')
+            os.makedirs(tdir, exist_ok=True)
+            with open(os.path.join(tdir, 'list_type.j2'), 'w') as f:
+                f.write("{{- emit_depends('<vector>') -}}{{ i18n('classes', 'list') }}<{{ value_type }}>")
+            template_dirs = ['tpl'] + template_dirs
+
         def make_renderer_setting(i18n: I18n, emitter: RendererEmitter) -> RendererSetting:
-            return RendererSetting([os.path.join('data', 'cpp', 'template')], i18n.t, emitter, dict(VIEW_ENV))
+            return RendererSetting(list(template_dirs), i18n.t, emitter, dict(view_env if view_env is not None else VIEW_ENV))
 
         def make_source_provider(invoker: Invoker) -> SourceProvider:
             org = invoker(org_source_provider)
